@@ -87,13 +87,18 @@ CHECKS = {
         technique='Lean 4 proof (round trip by induction over events/tracks with a writer-reader coupling invariant) over a hand model of writer and reader; byte-exact differential correspondence incl. mutants',
         design='5 C07'),
     'C08': dict(
-        text='Padded-VLQ reading theorem for any legal spelling, minimality and shape of written VLQs, clip is the identity on valid bytes '
-             'and maps bytes above 127 to 127, every written track ends in an end_of_track event; the reader model is tied to the '
-             'implementation on random standard-conformant alternative encodings (running status at will, padded VLQs, longer headers) '
-             'in all four clip/debug configurations; the written bytes are judged by an independent reference SMF decoder.',
-        note='PARTIAL: conformance of whole files in both directions rests on the reference decoder / alternative-encoding oracle and the '
-             'correspondence in this revision; the EncTrack relation theorems are under construction. debug=True is I/O, correspondence-only.',
-        technique='Lean 4 proof (VLQ denotation by induction, clip lemmas) over a hand model; differential correspondence + independent reference decoder',
+        text='The SMF encoding is stated as a relation EncFile/EncTrack/EncBody/EncEv between events and bytes (specification level, no reader '
+             'or writer mentioned: padded VLQs anywhere, running status used or not wherever the standard allows it, header chunk of 6 or more '
+             'bytes). Theorem C08_read_any: the reader inverts EVERY member of the relation, with clip on or off (so clip changes nothing on '
+             'valid files). Theorem C08_write_conforms: what save writes for a storable file is a member of the relation for exactly the '
+             'in-memory header and fix_end_of_track of each track (exact chunk lengths, running status only directly after a channel message of '
+             'equal status and never across meta/sysex, sysex as F0 len data F7); C08_roundtrip_via_spec composes the two. Plus: minimality and '
+             'shape of written VLQs, clip maps bytes above 127 to 127 and is the identity on valid bytes, every written track ends in '
+             'end_of_track. The reader/writer models are tied to the implementation on random conformant alternative encodings in all four '
+             'clip/debug configurations; the written bytes are judged by an independent reference SMF decoder.',
+        note='PARTIAL: debug=True equivalence and the behaviour of clip=True on INVALID data bytes inside a whole file rest on the correspondence '
+             '(the byte-level clip lemma is proved); utf-8 charset and payloads above the 1 000 000-byte reader limit are excluded by explicit hypotheses.',
+        technique='Lean 4 proof (specification relation; reader inverts it by induction over the relation with a running-status coupling invariant; writer produces members) over a hand model; differential correspondence on alternative encodings; independent reference decoder as oracle',
         design='5 C08'),
     'C16': dict(
         text='The MidiFile container is modelled as a state machine over edit and observation operations; history independence, purity and '
